@@ -46,6 +46,16 @@ class Component:
         """Canonical observable result of the real code on `case`."""
         raise NotImplementedError
 
+    def impl_many(self, cases) -> list[str]:
+        """impl() over all cases (a component may override this to use a process pool)."""
+        outs = []
+        for c in cases:
+            try:
+                outs.append(self.impl(c))
+            except Exception as exc:  # harness bug or unmodelled crash of the impl: keep it visible
+                outs.append("HARNESS-EXC " + type(exc).__name__ + ": " + str(exc)[:200])
+        return outs
+
     def oracle(self, case, impl_out: str) -> str | None:
         """The property on the implementation: None if it holds for this case, else what fails."""
         return None
@@ -182,12 +192,7 @@ def run(prop: str, tier: str, replay: str | None) -> int:
             r = core.rng(prop + ":" + comp.name)
             cases = list(comp.corpus()) + list(comp.cases(r, tier))
         # implementation side
-        impl_outs = []
-        for c in cases:
-            try:
-                impl_outs.append(comp.impl(c))
-            except Exception as exc:  # harness bug or unmodelled crash of the impl: keep it visible
-                impl_outs.append("HARNESS-EXC " + type(exc).__name__ + ": " + str(exc)[:200])
+        impl_outs = comp.impl_many(cases)
         # model side
         model_outs: list[str | None] = [None] * len(cases)
         if driver_ok:
@@ -241,7 +246,9 @@ def run(prop: str, tier: str, replay: str | None) -> int:
 
         def still(c):
             o = comp.impl(c)
-            return bool(comp.oracle(c, o))
+            f = comp.oracle(c, o)
+            # do not let shrinking drift into a case that a listed known finding covers
+            return bool(f) and not any(finding_matches(mod, fd, comp.name, c, f) for fd in findings)
 
         small = shrink_case(comp, item["case"], still)
         if small is not item["case"]:
